@@ -1,0 +1,95 @@
+//
+// verif_hooks.rs
+//
+// Verification seams, compiled only with the cargo feature `verif`.
+//
+// The optimiser draws three random words per Monte-Carlo step (which parameter, how far, the
+// acceptance threshold). `HookRng` wraps the real generator; when a script is installed on the
+// current thread it decides the word that is served for each draw, otherwise the real word is
+// passed through unchanged. `tag` labels the next draw at its call site so a harness does not
+// depend on the order of the draws.
+
+use std::cell::{Cell, RefCell};
+
+use rand::{Error, RngCore};
+
+#[derive(Clone, Copy, Debug, PartialEq, Eq)]
+pub enum Draw {
+    Other,
+    Index,
+    Delta,
+    Threshold,
+}
+
+pub type Script = Box<dyn FnMut(Draw, u64) -> u64>;
+
+thread_local! {
+    static TAG: Cell<Draw> = Cell::new(Draw::Other);
+    static SCRIPT: RefCell<Option<Script>> = RefCell::new(None);
+    static LOGGING: Cell<bool> = Cell::new(false);
+    static LOG: RefCell<Vec<(Draw, u64, u64)>> = RefCell::new(Vec::new());
+}
+
+/// Label the next draw made on this thread.
+pub fn tag(draw: Draw) {
+    TAG.with(|t| t.set(draw));
+}
+
+/// Install (or remove) the script deciding the words served on this thread. The script receives
+/// the tag of the draw and the word of the real generator and returns the word to serve.
+pub fn install(script: Option<Script>) {
+    SCRIPT.with(|s| *s.borrow_mut() = script);
+}
+
+/// Switch the per-thread draw log on or off; switching clears it.
+pub fn set_logging(on: bool) {
+    LOGGING.with(|l| l.set(on));
+    LOG.with(|l| l.borrow_mut().clear());
+}
+
+/// Take the `(tag, real word, served word)` log of this thread.
+pub fn take_log() -> Vec<(Draw, u64, u64)> {
+    LOG.with(|l| std::mem::replace(&mut *l.borrow_mut(), Vec::new()))
+}
+
+pub struct HookRng<R: RngCore> {
+    inner: R,
+}
+
+impl<R: RngCore> HookRng<R> {
+    pub fn new(inner: R) -> Self {
+        HookRng { inner }
+    }
+
+    fn serve(&mut self, real: u64) -> u64 {
+        let draw = TAG.with(|t| t.replace(Draw::Other));
+        let served = SCRIPT.with(|s| match s.borrow_mut().as_mut() {
+            Some(script) => script(draw, real),
+            None => real,
+        });
+        if LOGGING.with(|l| l.get()) {
+            LOG.with(|l| l.borrow_mut().push((draw, real, served)));
+        }
+        served
+    }
+}
+
+impl<R: RngCore> RngCore for HookRng<R> {
+    fn next_u32(&mut self) -> u32 {
+        let real = self.inner.next_u32();
+        self.serve(u64::from(real)) as u32
+    }
+
+    fn next_u64(&mut self) -> u64 {
+        let real = self.inner.next_u64();
+        self.serve(real)
+    }
+
+    fn fill_bytes(&mut self, dest: &mut [u8]) {
+        self.inner.fill_bytes(dest)
+    }
+
+    fn try_fill_bytes(&mut self, dest: &mut [u8]) -> Result<(), Error> {
+        self.inner.try_fill_bytes(dest)
+    }
+}
